@@ -16,7 +16,7 @@ func init() {
 		level: "other",
 		explanation: "The templates are analysed as programs: each is instantiated (standard text/template, checker-side stand-ins built from the format strings extracted from formatInts/formatRunes) on five witness automata chosen for the property's hard cases (characters needing escapes, non-identifier terminal names, a definition owning no state, empty automaton), written to a scratch module with no requirements and type-checked; the emitted transition function and accepting table are then flattened from the skeleton's syntax tree and compared extensionally with the witness automaton (same next state for every (state, character), same terminal for every accepting state, nothing else). " +
 			"The data assembly feeding the templates is decided on the generator's AST: every automaton transition contributes its symbol exactly once to the group (its state, its next state), groups are copied field for field, FinalStates[i] is built from definition i's terminal, and every template is rendered exactly once. Decides validity and extensional identity for the witness family and the structural obligations of the data assembly; arbitrary specifications are covered through those two together, not by running the generator.",
-		trusted: []string{"text/template and fmt of the standard library", "dfa.Transitions() of the dependency yields each transition once", "red-black tables iterate every entry"},
+		trusted:     []string{"text/template and fmt of the standard library", "dfa.Transitions() of the dependency yields each transition once", "red-black tables iterate every entry"},
 		assumptions: []string{"the stand-in list formatters reproduce formatInts/formatRunes: per-element format and separator are extracted from their source, the truncation of the trailing separator is checked"},
 	}})
 }
@@ -28,6 +28,7 @@ func runC08(c *Ctx) {
 	c.Rule("R8.4", 12, "the emitted transition function is extensionally the automaton; symbols are grouped faithfully")
 	c.Rule("R8.5", 8, "the emitted accepting table is extensionally the terminal map")
 	c.Rule("R8.6", 6, "every template is rendered exactly once")
+	c.Rule("R8.7", 1, "every field the templates read is modelled by the witnesses, or covered by witnesses in which it is set")
 
 	ts := loadTemplates(c, "R8.1")
 	if ts == nil {
@@ -38,6 +39,7 @@ func runC08(c *Ctx) {
 			fmt.Sprintf("element format %q, separator %q, but the truncation does not remove len(separator) bytes: the list ends in a stray separator or loses characters", lf.elemFmt, lf.sep))
 		c.Sample("formatter %s: element %q separator %q", name, lf.elemFmt, lf.sep)
 	}
+	unmodelledFields(c, "R8.7", ts)
 	set := buildSkeletons(c, "R8.1", ts, false)
 	defer set.cleanup()
 	if set == nil {
@@ -45,34 +47,56 @@ func runC08(c *Ctx) {
 	}
 	ruleFor := map[string]string{"simple": "R8.1", "runes": "R8.2", "names": "R8.2", "emptystates": "R8.3", "empty": "R8.3"}
 	for _, sk := range set.sk {
-		rule := ruleFor[sk.w.name]
-		if sk.pkg == nil {
-			c.Fail(rule, "witness "+sk.w.name+": the emitted package loads", token.NoPos, "no package was produced for the witness ("+sk.w.why+")")
-			continue
-		}
-		var errs []string
-		for _, e := range sk.pkg.Errors {
-			msg := e.Msg
-			if i := strings.Index(e.Pos, sk.w.name+"/"); i >= 0 {
-				msg = e.Pos[i+len(sk.w.name)+1:] + ": " + msg
+		func() {
+			rule := ruleFor[sk.w.name]
+			if sk.w.extraField != "" {
+				rule = "R8.7"
 			}
-			errs = append(errs, msg)
-		}
-		wit := witnessText(sk.w)
-		c.Check(rule, "witness "+sk.w.name+": the emitted package is valid Go ("+sk.w.why+")", token.NoPos, len(errs) == 0,
-			fmt.Sprintf("the package emitted for this automaton does not compile: %s", strings.Join(firstFew(errs, 4), "; ")), wit)
-		// imports: standard library only
-		for _, f := range sk.pkg.Syntax {
-			for _, im := range f.Imports {
-				path := strings.Trim(im.Path.Value, "\"")
-				c.Check("R8.1", fmt.Sprintf("witness %s: %s imports only the standard library (%s)", sk.w.name, baseName(c, sk.pkg, f), path), token.NoPos, isStdlib(path),
-					"the emitted code imports a package outside the standard library")
+			obsBefore := len(c.Obs)
+			// A disagreement that shows only when an unmodelled field is set on the witness with unusual characters is not a verdict:
+			// the generator may set the field only where that is right (a flag for automata over ASCII), and nothing here models
+			// the code that sets it. On the plain witness, which has no property a flag could be about, it is one.
+			soften := func() {
+				if sk.w.extraField == "" || strings.HasPrefix(sk.w.name, "simple_") {
+					return
+				}
+				for i := obsBefore; i < len(c.Obs); i++ {
+					if !c.Obs[i].OK && !c.Obs[i].Undecided {
+						c.Obs[i].Undecided = true
+						c.Obs[i].Key = "undecided:" + c.Obs[i].Key
+						c.Obs[i].Detail = "with the unmodelled field ." + sk.w.extraField + " set: " + c.Obs[i].Detail + " (whether the generator sets the field for such an automaton is not modelled)"
+					}
+				}
 			}
-		}
-		if len(errs) > 0 || sk.pkg.IllTyped {
-			continue
-		}
-		compareSkeleton(c, sk)
+			defer soften()
+			if sk.pkg == nil {
+				c.Fail(rule, "witness "+sk.w.name+": the emitted package loads", token.NoPos, "no package was produced for the witness ("+sk.w.why+")")
+				return
+			}
+			var errs []string
+			for _, e := range sk.pkg.Errors {
+				msg := e.Msg
+				if i := strings.Index(e.Pos, sk.w.name+"/"); i >= 0 {
+					msg = e.Pos[i+len(sk.w.name)+1:] + ": " + msg
+				}
+				errs = append(errs, msg)
+			}
+			wit := witnessText(sk.w)
+			c.Check(rule, "witness "+sk.w.name+": the emitted package is valid Go ("+sk.w.why+")", token.NoPos, len(errs) == 0,
+				fmt.Sprintf("the package emitted for this automaton does not compile: %s", strings.Join(firstFew(errs, 4), "; ")), wit)
+			// imports: standard library only
+			for _, f := range sk.pkg.Syntax {
+				for _, im := range f.Imports {
+					path := strings.Trim(im.Path.Value, "\"")
+					c.Check("R8.1", fmt.Sprintf("witness %s: %s imports only the standard library (%s)", sk.w.name, baseName(c, sk.pkg, f), path), token.NoPos, isStdlib(path),
+						"the emitted code imports a package outside the standard library")
+				}
+			}
+			if len(errs) > 0 || sk.pkg.IllTyped {
+				return
+			}
+			compareSkeleton(c, sk)
+		}()
 	}
 
 	checkGrouping(c, ts.gp)
